@@ -63,6 +63,13 @@ pub fn gen_script(t: &mut Tape, gates: &Gates, max_len: usize) -> Script {
         let d = crate::props::c15::gen_doc(&mut Tape::new(&sub), gates);
         pool.push(d.text);
     }
+    // texts that end too early, with and without trailing blank space, and every text also with its
+    // trailing blank space removed / extended (a document "equal up to trailing blanks" is another
+    // document: diagnostics at the end of input move)
+    pool.push("PROGRAM p\nVAR\nx : INT;\n\n\n".into());
+    pool.push("PROGRAM p\nVAR\nx : INT;\nEND_VAR\nx := 1;\n   \n\t\n".into());
+    let extra: Vec<String> = pool.iter().flat_map(|d| vec![d.trim_end().to_string(), format!("{}\n\n  ", d)]).collect();
+    pool.extend(extra);
     let pool: Vec<&str> = pool.iter().map(|x| x.as_str()).collect();
     let n = t.count(1, max_len);
     let mut next_id: i64 = 1;
